@@ -1,14 +1,15 @@
 #!/usr/bin/env python3
 # usage: seed2_store.py <id> <n> <check> <result text>   (round 2: copies change n of /tmp/seed2/<id>-out into /verif/seeded/<id>-r2-<n>)
 import json,os,shutil,glob,sys
+R=os.environ.get('SEED_ROUND','2')
 i,n,chk,res=sys.argv[1:5]
-name=f'{i}-r2-{n}'
+name=f'{i}-r{R}-{n}'
 d=f'/verif/seeded/{name}'; os.makedirs(d,exist_ok=True)
-out=f'/tmp/seed2/{i}-out'
+out=f'/tmp/seed{R}/{i}-out'
 shutil.copy(f'{out}/patch{n}.diff',d+'/patch.diff')
 for f in glob.glob(f'{out}/demo{n}_*_test.go'): shutil.copy(f,d+'/'+os.path.basename(f))
 m=json.load(open(f'{out}/meta{n}.json'))
-m['author']='independent sub-agent (round 2: two changes per property) given only the property text and a scratch worktree'
+m['author']='independent sub-agent (round 2 or 3: two changes per property) given only the property text and a scratch worktree'
 m['confirmed_by_me']=open(f'{out}/verify{n}.log').read().strip()+" (tools/seed2_verify.sh: demonstration passes without / fails with the patch; suites of the touched packages pass with the patch; go build ./... ok)"
 m['checks_run']=f'git -C /repo apply /verif/seeded/{name}/patch.diff; bin/check {chk}; git -C /repo checkout -- .'
 m['result']=res
